@@ -205,8 +205,8 @@ def run(ctx):
     # 4. impl -> spec
     n = ctx.pick(4000, 60000)
     argv = ["--seed", str(ctx.seed), "--n", str(n), "--max-prec", "60", "--far", str(ctx.pick(300, 900))]
-    if not ctx.quick:
-        argv += ["--huge", "9000,16500,33000,40000"]
+    # (the f32 pre-filter of the half test is only wrong - if it is - from several thousand digits on: part of every run)
+    argv += ["--huge", ctx.pick("9000,24000", "9000,16500,33000,40000")]
     tr3 = ctx.drive(drive, argv, "trace-rnd.ndjson")
     monitor(ctx, "mon-rnd", tr3, timeout=3000)
 
@@ -224,7 +224,8 @@ def run(ctx):
     if f04_open or f90_open:
         req.append("src:wit")
     if not ctx.quick:
-        req.append("huge-digits")
+        pass
+    req.append("huge-digits")
     return ctx.finish(
         rule="one event = one rounding operation on one value (FBig at one base/mode/precision, RBig/Relaxed) or one "
              "primitive call tuple evaluated in all six modes; distinct = distinct (op, operands, outcome); non-trivial = "
